@@ -12,6 +12,12 @@ CHECKS = {
     ref="5 C11"),
 }
 
+CHECKS["C18"] = dict(
+    technique="TLA+ spec ImgProc.tla (exact rational semantics) model-checked by TLC; every enumerated state/edge replayed into the real functions; ImgProcTrace.tla validates recorded observations (centre finder, large seeded images)",
+    text="TLC enumerates every small integer image (normalize, zero_filter incl. every dead-pixel pattern on 3x3/3x4, bg_correct), every Accumulator push order up to 4-6 pushes, every plane/base pair for detrend and every even crop window; the model proves the stated identities in exact rationals on every image and the dumped states are replayed on the real tools, comparing values (1e-12), refusal of dead corners, metadata and input immutability. Larger seeded images and the centre finder on computed single-sphere holograms (square and non-square detectors) are recorded as traces and validated by a TLC trace specification.",
+    note="Bounded: images <= 3x4 over <= 4 values exhaustively; continuous domain of the centre finder sampled (seeded). Trusts TLC, the dump parser, and float-vs-rational comparison at 1e-12.",
+    ref="5 C18")
+
 NOT_APPLICABLE = []
 
 
